@@ -187,6 +187,29 @@ func enlargeFamilyInnovations(t *rapid.T, fam []GenomeSpec) []GenomeSpec {
 	return out
 }
 
+// addNodeBehindModules appends a hidden node whose id is larger than the control nodes' ids, wired sensor -> node -> output,
+// as an add-node mutation of a modular genome creates it (the population's id counter starts behind the control nodes).
+func addNodeBehindModules(g GenomeSpec) GenomeSpec {
+	maxNode, maxInnov := maxIds(g)
+	var sensor, out int
+	for _, n := range g.Nodes {
+		if isSensorRole(n.Role) && sensor == 0 {
+			sensor = n.Id
+		}
+		if n.Role == roleOutput {
+			out = n.Id
+		}
+	}
+	if sensor == 0 || out == 0 || len(g.Genes) == 0 || maxInnov >= math.MaxInt64-4 || maxNode >= math.MaxInt32-2 {
+		return g
+	}
+	g.Nodes = append(append([]NodeSpec(nil), g.Nodes...), NodeSpec{Id: maxNode + 1, Role: roleHidden, Act: 4, Trait: g.Nodes[0].Trait})
+	g.Genes = append(append([]GeneSpec(nil), g.Genes...),
+		GeneSpec{In: sensor, Out: maxNode + 1, W: 0.5, Innov: maxInnov + 1, Mut: 0.5, En: true, Trait: g.Genes[0].Trait},
+		GeneSpec{In: maxNode + 1, Out: out, W: -0.25, Innov: maxInnov + 2, Mut: -0.25, En: true, Trait: g.Genes[0].Trait})
+	return g
+}
+
 func genGenomeSpec(cfg GenomeCfg) *rapid.Generator[GenomeSpec] {
 	return rapid.Custom(func(t *rapid.T) GenomeSpec {
 		s := drawGenomeSpec(t, cfg)
